@@ -534,6 +534,21 @@ fn resolve_regions(
 
     // Create vftable
     let first_base = regions.iter().map(|t| &t.1).find(|r| r.is_base);
+    // Whether this type gets a vftable pointer of its own depends on its first base:
+    // wait until that base has been resolved.
+    if let Some(Region {
+        type_ref: Type::Raw(path),
+        ..
+    }) = first_base
+    {
+        if semantic
+            .type_registry
+            .get(path)
+            .is_some_and(|item| !item.is_resolved())
+        {
+            return Ok(None);
+        }
+    }
     let (vftable, vftable_region) = vftable::build(
         semantic,
         resolvee_path,
